@@ -1,5 +1,5 @@
 /* C20 -- plibraryloader-posix.c: the library handle is closed exactly once, also when the allocation fails */
-/* TRUSTED: dlopen/dlclose/dlsym/dlerror and p_file_is_exists (call-log stubs) */
+/* TRUSTED: dlopen/dlclose/dlsym/dlerror and p_file_is_exists (call-log stubs); p_strdup for one-character strings over the allocator model */
 #include "env/verif.h"
 #include "env/alloc.c"
 #include <dlfcn.h>
@@ -10,8 +10,10 @@ pboolean p_file_is_exists (const pchar *file) { return nondet_bool () ? TRUE : F
 void *dlopen (const char *path, int flags) { ENV_REQ (!g_dl_live, "one handle per loader"); g_dl_path = path; if (nondet_bool ()) return NULL; g_dlopens++; g_dl_live = 1; return &g_dl_obj; }
 int dlclose (void *h) { ENV_REQ (h == (void *) &g_dl_obj && g_dl_live, "dlclose: the open handle, exactly once"); g_dlcloses++; g_dl_live = 0; return nondet_bool () ? 0 : 1; }
 void *dlsym (void *h, const char *s) { ENV_REQ (h == (void *) &g_dl_obj && g_dl_live, "dlsym on the open handle"); return nondet_ptr (); }
-char *dlerror (void) { return NULL; }
-pchar *p_strdup (const pchar *s) { return NULL; }
+static char g_dl_msg[2] = "e"; unsigned g_dlerrors;
+char *dlerror (void) { g_dlerrors++; return nondet_bool () ? g_dl_msg : NULL; }
+/* one-character messages: copy through the allocator model so that the block is counted */
+pchar *p_strdup (const pchar *s) { pchar *r = p_malloc (2); if (r != NULL) { r[0] = s[0]; r[1] = 0; } return r; }
 #include "plibraryloader-posix.c"
 void h_loader (void)
 {
@@ -21,6 +23,9 @@ void h_loader (void)
 	if (l == NULL) { OBL (!g_dl_live && g_dlopens == g_dlcloses && g_allocs == g_frees, "failed new: a handle that was opened is closed again, nothing allocated"); CANARY ("new failed"); return; }
 	OBL (g_dlopens == 1 && g_dl_live && g_dl_path == path, "one handle for the caller's path");
 	p_library_loader_get_symbol (l, "s");
+	pchar *msg = p_library_loader_get_last_error (l);
+	OBL (msg == NULL || (msg[0] == 'e' && g_allocs == g_frees + 2), "last error: NULL or a copy the caller owns");
+	p_free (msg);
 	p_library_loader_free (l);
 	OBL (!g_dl_live && g_dlcloses == 1 && g_allocs == g_frees, "free closes the handle exactly once and releases the object");
 	p_library_loader_free (NULL);
